@@ -13,42 +13,48 @@ Proof.
   unfold musl_loader_disk, musl_loader. destruct exe as [f|]; [|reflexivity]. destruct (parse_header f) as [e|]; [|reflexivity].
   now rewrite <- interpreter_is_disk.
 Qed.
-(* when the probe stops before running anything: no tags, no exception *)
-Lemma musl_x_no_loader lim exe le archs : musl_loader_disk lim exe = None -> musllinux_tags_x lim exe le archs = Done [].
+(* when the probe stops before running anything: no tags *)
+Lemma musl_x_no_loader lim exe le archs : musl_loader_disk lim exe = None -> musllinux_tags_x lim exe le archs = [].
 Proof. intros H. unfold musllinux_tags_x, get_musl_version_x. now rewrite H. Qed.
 (* when the loader runs, the sequence is the one of the oracle model with the loader's output *)
 Theorem musl_x_agrees lim exe le archs :
   musl_loader_disk lim exe = musl_loader exe ->
-  (forall ld, musl_loader exe = Some ld -> run_loader le ld = Done (le_stderr le)) ->
-  musllinux_tags_x lim exe le archs = Done (musllinux_tags exe (le_stderr le) archs).
+  (forall ld, musl_loader exe = Some ld -> run_loader le ld = LRan (le_stderr le)) ->
+  musllinux_tags_x lim exe le archs = musllinux_tags exe (le_stderr le) archs.
 Proof.
   intros A R. unfold musllinux_tags_x, get_musl_version_x, musllinux_tags, get_musl_version, musl_render. rewrite A.
   destruct (musl_loader exe) as [ld|] eqn:E; [|reflexivity]. now rewrite (R ld eq_refl).
 Qed.
-Lemma run_loader_ok le ld : has_nul ld = false -> (le_all le = true \/ In ld (le_existing le)) -> run_loader le ld = Done (le_stderr le).
+Lemma run_loader_ok le ld : has_nul ld = false -> (le_all le = true \/ In ld (le_existing le)) -> run_loader le ld = LRan (le_stderr le).
 Proof.
   intros N H. unfold run_loader. rewrite N. destruct H as [->|H]; [reflexivity|]. apply mem_spec in H. rewrite H. now rewrite orb_true_r.
 Qed.
-(* the two exceptions that escape _musllinux.platform_tags *)
-Theorem musl_x_raises lim exe le archs ld : musl_loader_disk lim exe = Some ld ->
-  (has_nul ld = true -> musllinux_tags_x lim exe le archs = Raised ExValueError) /\
-  (has_nul ld = false -> le_all le = false -> ~ In ld (le_existing le) -> musllinux_tags_x lim exe le archs = Raised ExFileNotFound).
+(* a loader that cannot be run - an embedded NUL in its path (ValueError) or a path that does not exist (FileNotFoundError) -
+   means "no musl": no tags, and no exception (the result type has no such outcome) *)
+Theorem musl_x_unrunnable lim exe le archs ld : musl_loader_disk lim exe = Some ld ->
+  (has_nul ld = true -> run_loader le ld = LValueError /\ musllinux_tags_x lim exe le archs = []) /\
+  (has_nul ld = false -> le_all le = false -> ~ In ld (le_existing le) ->
+     run_loader le ld = LFileNotFound /\ musllinux_tags_x lim exe le archs = []).
 Proof.
   intros L. unfold musllinux_tags_x, get_musl_version_x, run_loader. rewrite L. split.
-  - intros ->. reflexivity.
-  - intros -> -> H. destruct (mem ld (le_existing le)) eqn:M; [apply mem_spec in M; contradiction | reflexivity].
+  - intros ->. split; reflexivity.
+  - intros -> -> H. destruct (mem ld (le_existing le)) eqn:M; [apply mem_spec in M; contradiction | split; reflexivity].
 Qed.
-(* ... and everything built on it: _linux_platforms and platform_tags() on Linux raise when the musl probe raises, else they are
-   the sequences of the oracle model *)
+(* for ANY executable, limits and loader environment the result is a list of musllinux tags of one version, newest first per
+   architecture: either none at all or exactly the enumeration of the version the loader printed *)
+Theorem musl_x_total lim exe le archs :
+  musllinux_tags_x lim exe le archs = [] \/
+  exists M m, musllinux_tags_x lim exe le archs = map (render3 s_musllinux_) (musl_struct (Some (M, m)) archs).
+Proof.
+  unfold musllinux_tags_x, musl_render. destruct (get_musl_version_x lim exe le) as [[M m]|]; [right; eauto | now left].
+Qed.
+(* ... and everything built on it *)
 Theorem linux_x_shape is32 plat e lim le :
-  (starts_with s_linux_ (normalize_string plat) = false -> linux_platforms_x is32 plat e lim le = Done [normalize_string plat]) /\
+  (starts_with s_linux_ (normalize_string plat) = false -> linux_platforms_x is32 plat e lim le = [normalize_string plat]) /\
   (forall arch, normalize_string plat = s_linux_ ++ arch ->
      linux_platforms_x is32 plat e lim le =
      let archs := linux_archs (if is32 then remap32 arch else arch) in
-     match musllinux_tags_x lim (m_exe e) le archs with
-     | Done mt => Done (manylinux_tags e archs ++ mt ++ map (fun a => s_linux_ ++ a) archs)
-     | Raised x => Raised x
-     end).
+     manylinux_tags e archs ++ musllinux_tags_x lim (m_exe e) le archs ++ map (fun a => s_linux_ ++ a) archs).
 Proof.
   split.
   - intros H. unfold linux_platforms_x. cbv zeta. now rewrite H.
@@ -60,8 +66,8 @@ Proof.
 Qed.
 Corollary linux_x_agrees is32 plat e lim le :
   musl_loader_disk lim (m_exe e) = musl_loader (m_exe e) ->
-  (forall ld, musl_loader (m_exe e) = Some ld -> run_loader le ld = Done (le_stderr le)) ->
-  linux_platforms_x is32 plat e lim le = Done (linux_platforms is32 plat e (le_stderr le)).
+  (forall ld, musl_loader (m_exe e) = Some ld -> run_loader le ld = LRan (le_stderr le)) ->
+  linux_platforms_x is32 plat e lim le = linux_platforms is32 plat e (le_stderr le).
 Proof.
   intros A R. unfold linux_platforms_x, linux_platforms. cbv zeta. destruct (negb (starts_with s_linux_ (normalize_string plat))); [reflexivity|].
   now rewrite (musl_x_agrees lim (m_exe e) le _ A R).
@@ -118,17 +124,17 @@ Theorem musl_end_to_end_x lim le s ph archs : wf_spec s -> 4194304 <= seek_max l
   first_interp (s_is64 s) (s_phdrs s) = Some ph -> ph_off (s_is64 s) ph = payload_off s -> ph_size (s_is64 s) ph = flen (s_payload s) ->
   flen (s_payload s) < read_max lim ->
   let ld := strip_nul (s_payload s) in
-  (contains s_musl ld = false -> musllinux_tags_x lim (Some (encode s)) le archs = Done []) /\
-  (contains s_musl ld = true -> has_nul ld = true -> musllinux_tags_x lim (Some (encode s)) le archs = Raised ExValueError) /\
+  (contains s_musl ld = false -> musllinux_tags_x lim (Some (encode s)) le archs = []) /\
+  (contains s_musl ld = true -> has_nul ld = true -> musllinux_tags_x lim (Some (encode s)) le archs = []) /\
   (contains s_musl ld = true -> has_nul ld = false -> le_all le = false -> ~ In ld (le_existing le) ->
-     musllinux_tags_x lim (Some (encode s)) le archs = Raised ExFileNotFound) /\
+     musllinux_tags_x lim (Some (encode s)) le archs = []) /\
   (contains s_musl ld = true -> has_nul ld = false -> (le_all le = true \/ In ld (le_existing le)) ->
-     musllinux_tags_x lim (Some (encode s)) le archs = Done (map (render3 s_musllinux_) (musl_struct (parse_musl_version (le_stderr le)) archs))).
+     musllinux_tags_x lim (Some (encode s)) le archs = map (render3 s_musllinux_) (musl_struct (parse_musl_version (le_stderr le)) archs)).
 Proof.
   intros W SM FI Off Sz Small ld. pose proof (musl_loader_disk_encoded lim s ph W SM FI Off Sz Small) as L. fold ld in L.
   split; [intros C; rewrite C in L; now apply musl_x_no_loader|].
-  split; [intros C N; rewrite C in L; now apply (musl_x_raises lim _ le archs ld L)|].
-  split; [intros C N A B; rewrite C in L; now apply (musl_x_raises lim _ le archs ld L)|].
+  split; [intros C N; rewrite C in L; exact (proj2 (proj1 (musl_x_unrunnable lim _ le archs ld L) N))|].
+  split; [intros C N A B; rewrite C in L; exact (proj2 (proj2 (musl_x_unrunnable lim _ le archs ld L) N A B))|].
   intros C N E. rewrite C in L. unfold musllinux_tags_x, get_musl_version_x. rewrite L, (run_loader_ok le ld N E). reflexivity.
 Qed.
 
@@ -188,8 +194,8 @@ Proof.
   destruct (streq_spec k1 k2) as [E|_]; [contradiction|]. cbn [cache_get].
   destruct (streq_spec k2 k1) as [E|_]; [congruence|]. now rewrite streq_refl.
 Qed.
-(* an exception is not memoised: the next call probes again *)
-Lemma raised_not_cached c k x : cache_get k c = None -> cached_musl c k (Raised x) = (c, Raised x).
+(* a None answer is memoised like any other (so a loader that could not be run is not tried again for that path) *)
+Lemma none_is_cached c k : cache_get k c = None -> cached_musl c k None = ((k, None) :: c, None).
 Proof. intros H. unfold cached_musl. now rewrite H. Qed.
 
 (* ---------------------------------------------------------------- the battery step ties both memo cells to the tag functions *)
@@ -200,8 +206,7 @@ Theorem step_fresh archs st :
   (manylinux_tags (st_menv st) archs, musllinux_tags_x (st_lim st) (m_exe (st_menv st)) (st_le st) archs).
 Proof.
   unfold step_probes, pstate0, manylinux_tags, musllinux_tags_x. cbn [ps_glibc ps_musl cached_probe]. unfold cached_musl. cbn [cache_get].
-  destruct (have_compatible_abi (m_exe (st_menv st)) archs) eqn:A; cbn [negb many_struct];
-    destruct (get_musl_version_x (st_lim st) (m_exe (st_menv st)) (st_le st)); reflexivity.
+  destruct (have_compatible_abi (m_exe (st_menv st)) archs) eqn:A; reflexivity.
 Qed.
 Theorem step_glibc_cell archs s st :
   ps_glibc (fst (step_probes archs s st)) =
